@@ -11,10 +11,10 @@ if ! git apply --check "$PATCH" 2>/dev/null; then echo "PATCH-DOES-NOT-APPLY $PA
 git apply "$PATCH"
 trap 'git -C $R checkout -- . >/dev/null 2>&1; git -C $R clean -fdq gameboy >/dev/null 2>&1' EXIT
 for P in "$@"; do
-  cp ${VERIF_DIR:-/verif}/evidence/$P.json /tmp/evidence_backup_$P.json 2>/dev/null
+  cp ${VERIF_DIR:-/verif}/evidence/$P.json /tmp/evidence_backup_$$_$P.json 2>/dev/null
   out=$(cd ${VERIF_DIR:-/verif} && timeout 1500 ./check $P --tier quick 2>&1); rc=$?
   # evidence describes clean-tree runs only: put the previous file back
-  [ -f /tmp/evidence_backup_$P.json ] && mv /tmp/evidence_backup_$P.json ${VERIF_DIR:-/verif}/evidence/$P.json
+  [ -f /tmp/evidence_backup_$$_$P.json ] && mv /tmp/evidence_backup_$$_$P.json ${VERIF_DIR:-/verif}/evidence/$P.json
   line=$(echo "$out" | grep -E '^(VIOLATION|OK|KNOWN-FINDING)' | tail -1)
   echo "SEED $(basename $(dirname $PATCH)) $P rc=$rc :: $line"
   if [ $rc -ne 0 ]; then cp ${VERIF_DIR:-/verif}/replays/${P}_violation.json /tmp/seed_replay_$(basename $(dirname $PATCH))_$P.json 2>/dev/null || cp ${VERIF_DIR:-/verif}/replays/${P}_unchecked.json /tmp/seed_replay_$(basename $(dirname $PATCH))_$P.json 2>/dev/null; fi
